@@ -417,6 +417,10 @@ class Interp(Engine):
 
     def st_For(self, node):
         it = self.ev(node.iter)
+        if isinstance(it, RangeV):
+            lo_, hi_ = z3.simplify(it.lo), z3.simplify(it.hi)
+            if z3.is_int_value(lo_) and z3.is_int_value(hi_) and hi_.as_long() - lo_.as_long() <= 4:
+                it = TupV([SV(Val.intv(z3.IntVal(k)), "int") for k in range(lo_.as_long(), hi_.as_long())])   # constant small range: unrolled
         if isinstance(it, TupV) or (isinstance(it, ZipV) and it.static_len() is not None):
             items = it.items if isinstance(it, TupV) else it.static_items(self)
             broke = False
@@ -1263,6 +1267,16 @@ class Interp(Engine):
             self.unsupported(node, "nested comprehension")
         g = node.generators[0]
         it = self.ev(g.iter)
+        if isinstance(it, PSeq) or (isinstance(it, SV) and parse_tag(it.ty)[0] == "list"):
+            # a sequence whose elements are literally known on this path (class-level constant lists): evaluate element-wise
+            from .calls import static_seq_items
+            try:
+                items_ = static_seq_items(z3.simplify(it.seq if isinstance(it, PSeq) else self.list_of(it)))
+            except Exception:
+                items_ = None
+            if items_ is not None and 0 < len(items_) <= 8 and all(z3.is_app(t) and not _has_uninterp(t) for t in items_):
+                et_ = it.elem if isinstance(it, PSeq) else self.elem_tag(it)
+                it = TupV([self.from_term(t, et_ or _lit_tag(t)) for t in items_])
         if isinstance(it, TupV):
             out = []
             for x in it.items:
@@ -1462,6 +1476,21 @@ class Interp(Engine):
 
 
 # ---------------------------------------------------------------------- helpers
+def _has_uninterp(t):
+    todo = [t]
+    while todo:
+        x = todo.pop()
+        if z3.is_app(x) and x.decl().kind() == z3.Z3_OP_UNINTERPRETED:
+            return True
+        todo.extend(x.children())
+    return False
+
+
+def _lit_tag(t):
+    n = t.decl().name()
+    return {"strv": "str", "intv": "int", "boolv": "bool", "bytesv": "bytes", "none": "none"}.get(n)
+
+
 MAP_THEORY = os.environ.get("VERIF_NO_SEQMAP") is None
 
 
